@@ -19,6 +19,9 @@ static const ll DAY_MIN = -719162, DAY_MAX = 2932896;
 
 static String S(const std::string& s) { return String(s.data(), (int)s.size()); }
 
+static ll floordiv(ll a, ll b) { ll q = a / b; return (a % b != 0 && ((a < 0) != (b < 0))) ? q - 1 : q; }
+static ll floormod(ll a, ll b) { return a - floordiv(a, b) * b; }
+
 static std::string tstr(double t)
 {
 	if (t != t) return "nan";
@@ -26,8 +29,6 @@ static std::string tstr(double t)
 	return str(llround(t * 1000.0));
 }
 
-static ll floordiv(ll a, ll b) { ll q = a / b; return (a % b != 0 && ((a < 0) != (b < 0))) ? q - 1 : q; }
-static ll floormod(ll a, ll b) { return a - floordiv(a, b) * b; }
 
 // ---- independent oracle (Howard Hinnant, "chrono-compatible low-level date algorithms")
 static void civil_from_days(ll z, int& y, int& m, int& d)
@@ -54,10 +55,15 @@ static std::string fieldsStr(const DateData& p)
 static std::string raw(const String& s) { return std::string(*s, s.length()); }
 
 // everything observable about one instant; `why` receives the oracle's verdict ("" = ok)
-static std::string instLine(ll ms, std::string& why)
+static ll roundMs(ll us) { return floordiv(us + 500, 1000); }
+
+// the instant is given in microseconds (the double us / 1e6); `ms` below is the nearest millisecond (ties up), which is
+// what every field, every format and the FULL round trip must show
+static std::string instLineU(ll us, std::string& why)
 {
 	why = "";
-	double t = ms / 1000.0;
+	double t = us / 1000000.0;
+	ll ms = roundMs(us);
 	Date   d(t);
 	DateData p = d.splitUTC();
 	Date   mk(Date::UTC, p.year, p.month, p.day, p.hours, p.minutes, p.seconds);
@@ -73,7 +79,7 @@ static std::string instLine(ll ms, std::string& why)
 	civil_from_days(day, y, m, dd);
 	int hh = (int)(sod / 3600), mi = (int)(sod % 3600 / 60), ss = (int)(sod % 60);
 	int wd = (int)floormod(4 + day, 7);
-	if ((ll)floor(t * (1 / 86400.0)) != day || (ll)floor(t / 86400.0) != day) why += " fp-day";
+	{ double tr = t + 0.0005; if ((ll)floor(tr * (1 / 86400.0)) != day || (ll)floor(tr / 86400.0) != day) why += " fp-day"; }
 	if (p.year != y || p.month != m || p.day != dd) why += " date-fields";
 	if (p.hours != hh || p.minutes != mi || p.seconds != ss) why += " time-fields";
 	if (p.weekDay != wd) why += " weekday";
@@ -104,7 +110,15 @@ static uint64_t fnv(uint64_t h, const std::string& s)
 	return h;
 }
 
-static ll msOfDay(ll day) { return floormod(day * 7919, 1000); }
+static std::string instLine(ll ms, std::string& why) { return instLineU(ms * 1000, why); }
+
+static ll usOfDay(ll day, ll mode)
+{
+	static const ll e[6] = { 100, 200, 300, 700, 800, 900 };
+	if (mode == 0) return 0;
+	if (mode == 1) return floormod(day * 7919, 1000) * 1000;
+	return -e[floormod(day * 7919, 6)];
+}
 
 static std::string u64(uint64_t v) { char b[32]; snprintf(b, sizeof b, "%llu", (unsigned long long)v); return b; }
 
@@ -118,7 +132,7 @@ static bool fmtOf(const std::string& k, Date::Format& f)
 static bool isInt(const std::string& s)
 {
 	size_t i = (s.size() && s[0] == '-') ? 1 : 0;
-	if (i >= s.size() || s.size() > 18) return false;
+	if (i >= s.size() || s.size() > 19) return false;
 	for (; i < s.size(); i++) if (s[i] < '0' || s[i] > '9') return false;
 	return true;
 }
@@ -170,15 +184,37 @@ static std::string step(const Toks& t)
 		return l + (why.empty() ? " or=ok" : " or=BAD:" + why);
 	}
 	bool oracleOnly = (op == "oscan" || op == "osecs");   // impl judged by the built-in oracle only; the model answers "ok"
-	if ((op == "scan" || op == "oscan") && t.size() == 5 && isInt(t[1]) && isInt(t[2]) && isInt(t[3]) && isInt(t[4])) {
-		ll d0 = num(t[1]), n = num(t[2]), sod = num(t[3]), st = num(t[4]);
+	if (op == "instu" && t.size() == 2 && isInt(t[1])) {
+		ll us = num(t[1]);
+		if (roundMs(us) < MS_MIN || roundMs(us) > MS_MAX) return "range";
+		std::string why;
+		std::string l = instLineU(us, why);
+		return l + (why.empty() ? " or=ok" : " or=BAD:" + why);
+	}
+	if (op == "splitu" && t.size() == 2 && isInt(t[1])) {
+		ll us = num(t[1]);
+		if (roundMs(us) < MS_MIN || roundMs(us) > MS_MAX) return "range";
+		return fieldsStr(Date(us / 1000000.0).splitUTC());
+	}
+	if (op == "fmtu" && t.size() == 3 && isInt(t[2])) {
+		Date::Format f;
+		if (!fmtOf(t[1], f)) return "bad-op";
+		ll us = num(t[2]);
+		if (roundMs(us) < MS_MIN || roundMs(us) > MS_MAX) return "range";
+		String s = Date(us / 1000000.0).toUTCString(f);
+		return hex(*s, s.length());
+	}
+	if ((op == "scan" || op == "oscan") && (t.size() == 5 || t.size() == 6) && isInt(t[1]) && isInt(t[2]) && isInt(t[3]) && isInt(t[4]) && (t.size() == 5 || isInt(t[5]))) {
+		ll d0 = num(t[1]), n = num(t[2]), sod = num(t[3]), st = num(t[4]), mode = t.size() == 6 ? num(t[5]) : 1;
+		if (mode < 0 || mode > 2) return "range";
 		if (n < 0 || st < 1 || st > 1000 || d0 < DAY_MIN || d0 + st * (n - 1) > DAY_MAX || n > 100000 || sod < 0 || sod >= 86400) return "range";
 		uint64_t h = 14695981039346656037ULL;
 		std::string why;
 		for (ll i = 0; i < n; i++) {
-			ll day = d0 + st * i, ms = (day * 86400 + sod) * 1000 + msOfDay(day);
-			h = fnv(h, instLine(ms, why));
-			if (!why.empty()) return "bad " + str(ms) + why;
+			ll day = d0 + st * i, us = (day * 86400 + sod) * 1000000 + usOfDay(day, mode);
+			if (roundMs(us) < MS_MIN || roundMs(us) > MS_MAX) continue;
+			h = fnv(h, instLineU(us, why));
+			if (!why.empty()) return "bad us=" + str(us) + why;
 		}
 		return oracleOnly ? std::string("ok") : "ok " + u64(h);
 	}
